@@ -246,6 +246,7 @@ func runLLMNR(w *rt.World, res *hx.Result, realServer, realClient bool) *hx.Viol
 	timeoutKnob := hx.G(3) // real client: Timeout 2 s (default), 300 ms, 5 s
 	dbgDescribe := hx.G(2) == 0
 	nagOn := hx.G(4) == 0 && nResponders == 1
+	edgeIDs := hx.G(3) == 0
 	llJunk := [...]int{0, 0, 0, 2, 5, 9}[hx.G(6)]
 	llJunkShape := hx.G(3)
 	jitter := hx.G(3) == 0 // the responder handler answers after it returned, from a timer (RFC 4795 jitter), through the writer it was given
@@ -510,7 +511,12 @@ func runLLMNR(w *rt.World, res *hx.Result, realServer, realClient bool) *hx.Viol
 			rc := &llRawClient{idx: c, host: fmt.Sprintf("10.0.1.%d", c+1)}
 			for q := 0; q < clN[c]; q++ {
 				idc += 1 + uint16(pool[c][q][1])
-				rc.qs = append(rc.qs, &llQuery{name: pool[c][q][0] % nNames, id: idc, carry: realServer && pool[c][q][1]%2 == 1})
+				id := idc
+				if edgeIDs && q == 0 && c < 2 {
+					id = [...]uint16{0x0000, 0xFFFF}[c] // legal transaction ids like any other
+					rt.Probe(PEdgeIDs)
+				}
+				rc.qs = append(rc.qs, &llQuery{name: pool[c][q][0] % nNames, id: id, carry: realServer && pool[c][q][1]%2 == 1})
 			}
 			rc.poison = realServer && chain == 3 && c == 0
 			raws = append(raws, rc)
